@@ -305,6 +305,20 @@ class Body:
             if 1 <= l <= self.argc:
                 break
             sd = self.single_def(l)
+            if sd and sd[2] == "assign" and sd[3]["r"] == "agg" and sd[3].get("ak") == "tuple" and projs and projs[0].startswith("."):
+                # `_5 = (copy _1, copy _2)`; `_5.1` is the second operand
+                try:
+                    idx = int(projs[0][1:])
+                except ValueError:
+                    idx = None
+                ops = sd[3]["ops"]
+                if idx is not None and idx < len(ops) and ops[idx].get("k") in ("copy", "move"):
+                    src = ops[idx]["pl"]
+                    l = src["l"]
+                    projs = [proj_key(e) for e in src["p"]] + projs[1:]
+                    seen.discard(l)
+                    continue
+                break
             if sd and sd[2] == "call" and transparent:
                 t = sd[3]
                 nm = callee_names(t["func"])
